@@ -848,7 +848,9 @@ def run(ctx):
     # the same ranges held in other ways: lists / tuples of floats or integers, integer and float32 arrays (bounds
     # those types hold exactly), big-endian, strided / reversed views, read-only, Series with any index, plain
     # numbers for one parameter, the size as a numpy integer; one upper bound given for equal upper bounds.
-    # (float32 UPPER bounds are left out: see notes - the centres are then computed in float32)
+    # float32 UPPER bounds are left out: on the pinned code pmax is not converted to float64 (pmin is), so
+    # `pmax[i]-du/2` is evaluated in float32 and e.g. lhs(100, [1e6], np.float32([1e6+1])) puts samples above
+    # pmax and leaves the top stratum empty - reported as a finding of the hardening round, not asserted here.
     LHS_REPS = ["list", "tuple", "int-list", "int64", "int32", "big-endian", "strided", "reversed", "readonly",
                 "series:shuffled", "series:dates", "series:text"]
     for it in range(ctx.scale(4, 16) * len(LHS_REPS)):
